@@ -66,7 +66,8 @@ def gen_e2e(tier, seed, rnd, kind):
                 N = rnd.choice([30, 50, 80])
                 td = rnd.choice([1, 2])
                 cases.append(dict(mode="e2e", method=m, threads=threads, data=rnd.choice(["gauss", "swiss"]), N=N, D=3, td=td,
-                                  k=12 if m == "hlle" else rnd.choice([6, 9]), nm="brute", em="dense", width=3.0, timesteps=2, ratio=0.6,
+                                  k=12 if m == "hlle" else rnd.choice([6, 9]), nm=rnd.choice(["brute", "vptree", "covertree"]), em="dense", width=3.0,
+                                  timesteps=2, ratio=0.6,
                                   dseed=rnd.randrange(1 << 30), delay_seed=rnd.randrange(1 << 30), srand=rnd.randrange(1 << 30),
                                   shuffle=rnd.randrange(1 << 30), timeout=900, ticks=0))
     # the methods that have no parallel region of their own today: a region added to one of them (or to a helper they share)
@@ -76,12 +77,18 @@ def gen_e2e(tier, seed, rnd, kind):
             continue  # chaotic / random: only the race detector speaks for them
         for rep in range(reps):
             N = rnd.choice([30, 50])
-            c = dict(mode="e2e", method=m, threads=4 if kind == "tsan" else 8, data="gauss", N=N, D=4, td=2, k=8, nm="brute", em="dense", width=3.0,
+            c = dict(mode="e2e", method=m, threads=4 if kind == "tsan" else 8, data="gauss", N=N, D=4, td=2, k=8, nm=rnd.choice(["brute", "vptree", "covertree"]),
+                     em="dense", width=3.0,
                      maxiter=5, perp=5, theta=0.5, dseed=rnd.randrange(1 << 30), delay_seed=rnd.randrange(1 << 30), srand=rnd.randrange(1 << 30),
                      shuffle=rnd.randrange(1 << 30), timeout=900, ticks=0)
             if m == "ms":
                 c.update(N=16, maxiter=2)
             cases.append(c)
+    if kind in ("tsan", "prod"):
+        for nm in ["brute", "vptree", "covertree"]:
+            cases.append(dict(mode="e2e", method="le", threads=4, data="swiss", N=400, D=3, td=2, k=8, nm=nm, em="dense", width=10.0,
+                              dseed=rnd.randrange(1 << 30), delay_seed=rnd.randrange(1 << 30), srand=rnd.randrange(1 << 30), shuffle=rnd.randrange(1 << 30),
+                              timeout=1800, ticks=0))
     if kind == "tsan":
         cases.append(dict(mode="e2e", method="tsne", threads=4, data="clusters", nc=3, gap=6, N=1100, D=4, td=2, maxiter=3, perp=10, theta=0.5,
                           dseed=rnd.randrange(1 << 30), delay_seed=rnd.randrange(1 << 30), srand=rnd.randrange(1 << 30), shuffle=rnd.randrange(1 << 30),
